@@ -329,7 +329,15 @@ class Interp:
                         args.extend(list(v) if v is not U and isinstance(v, (list, tuple)) else [U])
                     else:
                         args.append(self.ev(a))
-                o = Obj(cn, tuple(args), {k.arg: self.ev(k.value) for k in e.keywords if k.arg}, len(self.created), getattr(e, "lineno", 0))
+                kws = {k.arg: self.ev(k.value) for k in e.keywords if k.arg}
+                for k in e.keywords:
+                    if k.arg is None:                       # **{..}: folded in when the mapping is a constant
+                        v = self.ev(k.value)
+                        if isinstance(v, dict) and not isinstance(v, NS) and all(isinstance(x, str) for x in v):
+                            kws.update(v)
+                        else:
+                            kws["**"] = U
+                o = Obj(cn, tuple(args), kws, len(self.created), getattr(e, "lineno", 0))
                 self.created.append(o)
                 return o
         if isinstance(e.func, ast.Name) and e.func.id in self.classes and e.func.id not in self.env:
@@ -360,7 +368,11 @@ class Interp:
             a_, kw_ = [], {}
             for a in e.args:
                 if isinstance(a, ast.Starred):
-                    return U
+                    v = self.ev(a.value)
+                    if v is U or not isinstance(v, (list, tuple)):
+                        return U
+                    a_.extend(v)
+                    continue
                 a_.append(self.ev(a))
             for k in e.keywords:
                 if k.arg is None:
